@@ -4,7 +4,7 @@ import sys, os, logging
 sys.path.insert(0, os.path.dirname(os.path.abspath(__file__)))
 from common_impl import hx, unhx, serve
 logging.disable(logging.CRITICAL)
-from bitcoinlib.keys import HDKey
+from bitcoinlib.keys import HDKey, Key
 
 NET = dict(network='bitcoin', witness_type='legacy')
 
@@ -25,12 +25,97 @@ def key_of_tok(t, kw=None):
         return HDKey.from_passphrase(unhx(p[1]).decode('utf8'), password=unhx(p[2]).decode('utf8'), **(kw or NET))
     if p[0] == 'xstr':
         return HDKey(p[1], **(kw or {}))
+    if p[0] == 'ctor':
+        return key_of_ctor(p[1], p[2], p[3], p[4:], kw)
     if p[0] == 'xwif':
         k = HDKey.from_wif(p[1], **({'network': kw['network'], 'multisig': kw['multisig']} if kw else {}))
         if kw:
             k.witness_type = kw['witness_type']      # from_wif takes the witness type from the version bytes only
         return k
     return key_of_fields(*p, kw=(kw or NET))
+
+
+def key_of_ctor(form, opts, aux, fields, kw):
+    """every way the constructor accepts the key material (k, c) and the metadata of [fields]:
+    form  how the key is handed over (positional import_key unless 'K' in opts: import_key= keyword)
+    opts  m: depth / parent_fingerprint / child_index passed explicitly (always when they are not the defaults)
+          z: chain omitted (only when c is 32 zero bytes, the documented default)      p: is_private passed explicitly
+          c: compressed=True explicitly   t: key_type='bip32' explicitly   n: no network / witness_type / multisig arguments
+          o: the Key / HDKey object handed over was made for another network
+    aux   a string made by the harness (WIF | BIP38 string,password hex | x,y of the point) or '-'"""
+    kind, k, c, d, f, i = fields
+    private = kind == 'prv'
+    kb, cb = unhx(k), unhx(c)
+    a = {}
+    if 'z' not in opts:
+        a['chain'] = cb
+    if 'm' in opts:
+        a.update(depth=int(d), parent_fingerprint=unhx(f), child_index=int(i))
+    if 'p' in opts:
+        a['is_private'] = private
+    if 'c' in opts:
+        a['compressed'] = True
+    if 't' in opts:
+        a['key_type'] = 'bip32'
+    if 'n' not in opts:
+        a.update(kw or NET)
+    net = a.get('network', 'bitcoin')
+    onet = ('testnet' if net == 'bitcoin' else 'bitcoin') if 'o' in opts else net
+    if form == 'kwbytes':
+        return HDKey(key=kb, chain=cb, **{x: y for x, y in a.items() if x != 'chain'})
+    if form == 'kwhex':
+        return HDKey(key=k, **a)
+    if form == 'kwint':
+        return HDKey(key=int(k, 16), **a)
+    if form == 'kwboth':                          # key= wins over import_key
+        return HDKey('00' * 31 + '01', key=kb, **a)
+    if form == 'cat64':
+        v = kb + cb
+        a.pop('chain', None)
+    elif form == 'hex':
+        v = k
+    elif form == 'hexc':
+        v = k + '01'
+    elif form == 'bytes':
+        v = kb
+    elif form == 'bytesc':
+        v = kb + b'\1'
+    elif form == 'int':
+        v = int(k, 16)
+    elif form == 'wif':
+        v = aux
+    elif form == 'bip38':
+        v, pw = aux.split(',')
+        a['password'] = unhx(pw).decode('utf8')
+    elif form == 'keyhex':
+        v = Key(k, network=onet)
+    elif form == 'keybytes':
+        v = Key(kb, network=onet)
+    elif form == 'keyint':
+        v = Key(int(k, 16), network=onet)
+    elif form == 'keywif':
+        v = Key(aux, network=net)
+    elif form == 'keypos':                        # Key(import_key=..., is_private=True) spelled with keywords
+        v = Key(import_key=k, network=onet, compressed=True, is_private=True)
+    elif form == 'hdobj':                         # an HDKey object with another chain code and other metadata
+        v = HDKey(key=kb, chain=bytes(range(32, 64)), depth=9, parent_fingerprint=b'\xaa\xbb\xcc\xdd', child_index=77,
+                  network=onet, witness_type='legacy')
+    elif form == 'hdobjsame':                     # an HDKey object that already is the key asked for
+        v = HDKey(key=kb, chain=cb, depth=int(d), parent_fingerprint=unhx(f), child_index=int(i), network=onet)
+    elif form == 'hdseed':                        # a master made by from_seed, re-used for its secret only
+        v = HDKey(key=kb, chain=bytes(32), network=onet)
+    elif form == 'pubhex':
+        v = k
+    elif form == 'pubbytes':
+        v = kb
+    elif form == 'point':
+        x, y = aux.split(',')
+        v = (int(x, 16), int(y, 16))
+    else:
+        raise ValueError('ctor form')
+    if 'K' in opts:
+        return HDKey(import_key=v, **a)
+    return HDKey(v, **a)
 
 
 WT = {'l': 'legacy', 'p': 'p2sh-segwit', 's': 'segwit'}
